@@ -1,6 +1,7 @@
 import SwiftMT.Dispatch
 import SwiftMT.MParser
 import SwiftMT.Calendar
+import SwiftMT.Amount
 import Driver.Hex
 /-
 Line-protocol driver over the executable model: one request per line on stdin, one answer per line on
@@ -98,6 +99,15 @@ def handle (args : List String) : String :=
   | ["offset", sg, i] => match unhex sg, unhex i with
     | some [c], some t => (match parseOffset c t with | some (_, h, m) => s!"some {h} {m}" | none => "none")
     | some _, some _ => "none"
+    | _, _ => "bad-op"
+  | ["amt", i] => match unhex i with
+    | some t => (match parseAmount t with | some d => s!"some {d.mant} {d.scale}" | none => "none")
+    | none => "bad-op"
+  | ["amtlen", i, n] => match unhex i, n.toNat? with
+    | some t, some n => (match parseAmountMaxLen t n with | some d => s!"some {d.mant} {d.scale}" | none => "none")
+    | _, _ => "bad-op"
+  | ["amtccy", i, c] => match unhex i, unhex c with
+    | some t, some ccy => (match roundTripAmount t ccy with | some o => s!"some {hex o}" | none => "none")
     | _, _ => "bad-op"
   | "mp" :: i :: ops => match unhex i with
     | some input => ";".intercalate (mpRun (PState.init input) ops)
